@@ -212,7 +212,100 @@ pub fn run_c11_b(ctx: &Ctx) -> Outcome {
             }
         }
     }
-    for c in ["b:shard-aware-connections-observed", "b:every-shard-reached", "b:range-ends-at-65535"] {
+    // A node that comes back with the same shard count but another ignore-MSB setting: the shard the driver
+    // computes for a token (observed as the shard of the connection a token-aware request travels on) must be the
+    // one ScyllaDB assigns under the NEW setting.
+    let n2 = ctx.vol(10, 240);
+    for i in 0..n2 {
+        let nr_shards = rng.usize(2, 6) as u16;
+        let (msb_a, msb_b) = *rng.pick(&[(12u8, 0u8), (0, 12), (12, 4), (4, 20)]);
+        let seed = ctx.seed.wrapping_mul(48271).wrapping_add(i);
+        let r: Result<(Vec<(i64, Option<u16>)>, Vec<(i64, Option<u16>)>), String> = rt.block_on(async {
+            let echo = Echo::new(EchoMode::Immediate);
+            let mut spec = single_node_spec();
+            spec.nodes[0].sharding = Some(ShardSpec { nr_shards, msb_ignore: msb_a, shard_aware_port: true });
+            let cluster = MockCluster::start(spec, echo.clone()).await;
+            let session = connect(&cluster, |b| b.pool_size(PoolSize::PerShard(NonZeroUsize::new(1).unwrap()))).await?;
+            let full = |c: &MockCluster| {
+                let conns: Vec<_> = c.established(0).into_iter().filter(|x| !x.registered.load(Ordering::SeqCst)).collect();
+                (0..nr_shards).all(|s| conns.iter().any(|x| x.shard == Some(s)))
+            };
+            {
+                let c = cluster.clone();
+                if !cluster.wait_until(Duration::from_secs(15), move || full(&c)).await {
+                    return Err("pool did not fill".into());
+                }
+            }
+            let prepared = session.prepare(format!("{ECHO_QUERY_PREFIX}?")).await.map_err(|e| e.to_string())?;
+            let mut r2 = fw::Rng::new(seed, 3);
+            let shard_of_frame = |cluster: &MockCluster, id: u64| -> Option<u16> {
+                cluster.log().snapshot().iter().rev().find_map(|l| match &l.ev {
+                    Ev::Recv { request, shard, .. } => match &**request {
+                        crate::wire::request::Request::Execute { params, .. } => match params.values.as_ref()?.first()? {
+                            crate::wire::prim::Value::Bytes(b) if b.len() == 8 && u64::from_be_bytes(b.as_slice().try_into().ok()?) == id => Some(*shard),
+                            _ => None,
+                        },
+                        _ => None,
+                    },
+                    _ => None,
+                })?
+            };
+            let mut before = Vec::new();
+            for _ in 0..12 {
+                let id = next_op();
+                let _ = session.execute_unpaged(&prepared, (id as i64,)).await;
+                before.push((crate::refmodel::murmur3::murmur3_token(&(id as i64).to_be_bytes()), shard_of_frame(&cluster, id)));
+            }
+            // the node restarts with another ignore-MSB setting
+            cluster.stop_node(0, CloseHow::Rst);
+            tokio::time::sleep(Duration::from_millis(60 + r2.below(60))).await;
+            cluster.node(0).spec.write().unwrap().sharding = Some(ShardSpec { nr_shards, msb_ignore: msb_b, shard_aware_port: true });
+            cluster.start_node(0).await;
+            {
+                let c = cluster.clone();
+                if !cluster.wait_until(Duration::from_secs(20), move || full(&c)).await {
+                    return Err("pool did not refill after the restart".into());
+                }
+            }
+            settle(cluster.log(), Duration::from_millis(150), Duration::from_secs(5), || false).await;
+            let mut after = Vec::new();
+            for _ in 0..24 {
+                let id = next_op();
+                let _ = session.execute_unpaged(&prepared, (id as i64,)).await;
+                after.push((crate::refmodel::murmur3::murmur3_token(&(id as i64).to_be_bytes()), shard_of_frame(&cluster, id)));
+            }
+            drop(session);
+            cluster.shutdown();
+            Ok((before, after))
+        });
+        match r {
+            Err(e) => o.inconclusive(format!("C11 part b resharding case could not run: {e}")),
+            Ok((before, after)) => {
+                let replay = json!({"part": "b", "resharding": {"nr_shards": nr_shards, "msb_before": msb_a, "msb_after": msb_b, "seed": seed}});
+                o.case(fw::hash64(format!("reshard:{nr_shards}:{msb_a}:{msb_b}:{seed}").as_bytes()), true);
+                o.class("b:node-back-with-another-ignore-msb");
+                for (phase, msb, v) in [("before the restart", msb_a, &before), ("after the restart", msb_b, &after)] {
+                    for (tok, got) in v {
+                        let Some(got) = got else { continue };
+                        let want = crate::refmodel::sharding::shard_of(*tok, nr_shards, msb) as u16;
+                        if *got != want {
+                            o.violation(
+                                "c11b:shard-of-token-after-resharding",
+                                format!("{phase} (shards {nr_shards}, ignore-MSB {msb}): the request for token {tok} travelled on a connection of shard {got}; ScyllaDB assigns shard {want}"),
+                                replay.clone(),
+                            );
+                        } else if phase.starts_with("after") {
+                            o.class("b:shard-follows-the-new-ignore-msb");
+                        }
+                    }
+                }
+            }
+        }
+        if fw::stop_early(&mut o) {
+            break;
+        }
+    }
+    for c in ["b:shard-aware-connections-observed", "b:every-shard-reached", "b:range-ends-at-65535", "b:node-back-with-another-ignore-msb", "b:shard-follows-the-new-ignore-msb"] {
         o.require_class(c);
     }
     o
